@@ -383,6 +383,9 @@ pub mod extension;
 pub mod prelude;
 pub mod seal;
 
+#[cfg(feature = "verif_hooks")]
+pub mod verif_trace;
+
 mod string_utils;
 
 #[cfg(feature = "signature")]
